@@ -4392,16 +4392,18 @@ size_t ZBUFFv07_decompressContinue(ZBUFFv07_DCtx* zbd,
                 zbd->blockSize = blockSize;
                 if (zbd->inBuffSize < blockSize) {
                     zbd->customMem.customFree(zbd->customMem.opaque, zbd->inBuff);
-                    zbd->inBuffSize = blockSize;
+                    zbd->inBuffSize = 0;
                     zbd->inBuff = (char*)zbd->customMem.customAlloc(zbd->customMem.opaque, blockSize);
                     if (zbd->inBuff == NULL) return ERROR(memory_allocation);
+                    zbd->inBuffSize = blockSize;
                 }
                 {   size_t const neededOutSize = zbd->fParams.windowSize + blockSize + WILDCOPY_OVERLENGTH * 2;
                     if (zbd->outBuffSize < neededOutSize) {
                         zbd->customMem.customFree(zbd->customMem.opaque, zbd->outBuff);
-                        zbd->outBuffSize = neededOutSize;
+                        zbd->outBuffSize = 0;
                         zbd->outBuff = (char*)zbd->customMem.customAlloc(zbd->customMem.opaque, neededOutSize);
                         if (zbd->outBuff == NULL) return ERROR(memory_allocation);
+                        zbd->outBuffSize = neededOutSize;
             }   }   }
             zbd->stage = ZBUFFds_read;
             /* pass-through */
